@@ -281,6 +281,32 @@ def install(I):
         I.write(st, r.cell, r.path, Agg(v.ty, items))
         return I.ret(st, UNIT)
 
+    @M(r'^Vec::<.*>::resize_with(::<.*>)?$|^VecDeque::<.*>::resize_with(::<.*>)?$', 'Vec::resize_with (filler closure called once per new slot)')
+    def m_resize_with(I, st, f, args, fr):
+        r = args[0]
+        n = int_of(I, st, args[1]).concrete()
+        if n is None or n > 16:
+            raise Unmodelled('symbolic / large Vec::resize_with')
+        states = [st]
+        v0 = coll_ref(I, st, r, ('Vec', 'VecDeque'), 'Vec')
+        for k in range(len(v0.fields), n):
+            nxt = []
+            for s in states:
+                ccell = s.alloc(args[2])
+                for o in I.call_callable(s, Ref(ccell, (), True), [], fr):
+                    if o.kind != 'ret':
+                        raise Unmodelled('resize_with filler did not return')
+                    cur = coll_ref(I, o.st, r, ('Vec', 'VecDeque'), 'Vec')
+                    I.write(o.st, r.cell, r.path, Agg(cur.ty, cur.fields + (o.val,)))
+                    nxt.append(o.st)
+            states = nxt
+        outs = []
+        for s in states:
+            cur = coll_ref(I, s, r, ('Vec', 'VecDeque'), 'Vec')
+            I.write(s, r.cell, r.path, Agg(cur.ty, cur.fields[:n]))
+            outs.append(Outcome(s, 'ret', UNIT))
+        return outs
+
     @M(r'^Vec::<.*>::truncate$|^VecDeque::<.*>::truncate$', 'Vec::truncate')
     def m_truncate(I, st, f, args, fr):
         r = args[0]
